@@ -27,7 +27,7 @@ TECHNIQUE = ("bounded exhaustive enumeration of row words x masks x a magnitude 
              "direct per-group calls; relational facets agg(list)==individual calls, ratio==sum/sum, "
              "densities==shares")
 RULE = ("case = one word over rows (key incl. null, value null/non-null, mask bit) [x grid point]; "
-        "every case runs var/std (ddof 0,1), median, quantile (3 q lists), apply with scalar / "
+        "every case runs var/std (ddof 0,1), median, quantile (5 q lists, ascending or not), apply with scalar / "
         "fixed-length / input-aligned functions on 1-2 columns, agg(list), ratio, subset_ratio, "
         "density; non-trivial = a group with >= 2 selected non-null values")
 ASSUMPTIONS = [
@@ -41,7 +41,7 @@ ASSUMPTIONS = [
 
 EPS = 2.0 ** -52
 GRID = [(o, s) for o in (0.0, 1.0, 1e3, 1e6, 1e8) for s in (0.125, 1.0, 1024.0)]
-QS = ([0.5], [0.25, 0.75], [0.0, 0.5, 1.0])
+QS = ([0.5], [0.25, 0.75], [0.0, 0.5, 1.0], [0.75, 0.25], [0.5, 0.0, 1.0])  # also lists that are not ascending
 
 
 def _span(x):
